@@ -171,6 +171,28 @@ impl Fl {
     }
 }
 
+/// oracle-side reading of the documented budget (docs: depth <= 64, nodes <= 4096, branches <= 1024,
+/// include list <= 4096), written independently of the model: explicit stack, no recursion.
+fn within_budget(f: &Fl) -> bool {
+    enum N<'a> { F(&'a Fl), R(&'a Rq) }
+    let (mut nodes, mut branches) = (0usize, 0usize);
+    let mut stack = vec![(N::F(f), 0usize)];
+    while let Some((n, depth)) = stack.pop() {
+        if depth > 64 { return false; }
+        nodes += 1;
+        match n {
+            N::F(Fl::Id(q)) | N::F(Fl::Field(_, q)) => stack.push((N::R(q), depth + 1)),
+            N::F(Fl::Or(fs)) | N::F(Fl::And(fs)) => { branches += fs.len(); stack.extend(fs.iter().map(|f| (N::F(f), depth + 1))); }
+            N::F(Fl::Not(f)) => stack.push((N::F(f), depth + 1)),
+            N::R(Rq::In(ks)) => { if ks.len() > 4096 { return false; } }
+            N::R(Rq::And(qs)) | N::R(Rq::Or(qs)) => { branches += qs.len(); stack.extend(qs.iter().map(|q| (N::R(q), depth + 1))); }
+            N::R(Rq::Not(q)) => stack.push((N::R(q), depth + 1)),
+            N::R(_) => {}
+        }
+    }
+    nodes <= 4096 && branches <= 1024
+}
+
 fn keys_of(d: &Doc, ix: usize) -> Vec<i64> {
     match ix {
         0 => vec![d.a as i64],
@@ -267,7 +289,18 @@ fn gen_case(r: &mut Rng) -> Vec<String> {
     let nq = 24;
     for _ in 0..nq {
         let unk = r.chance(1, 12);
-        let f = gen_fl(r, 3, n as i64, unk);
+        let mut f = gen_fl(r, 3, n as i64, unk);
+        if r.chance(1, 40) {
+            // around and beyond the complexity budget (depth 64, 4096 nodes, 1024 branches, 4096 include keys)
+            f = match r.below(6) {
+                0 => { let d = 60 + r.usize(8); (0..d).fold(f, |acc, _| Fl::Not(Box::new(acc))) }
+                1 => { let d = 58 + r.usize(8); Fl::Field(0, (0..d).fold(Rq::Ge(1), |acc, _| Rq::Not(Box::new(acc)))) }
+                2 => { let w = 1020 + r.usize(8); Fl::Or((0..w).map(|i| Fl::Id(Rq::Eq((i % 7) as i64))).collect()) }
+                3 => { let w = 4090 + r.usize(10); Fl::Id(Rq::In((0..w).map(|i| (i % 9) as i64).collect())) }
+                4 => { let w = 510 + r.usize(5); Fl::And(vec![Fl::Field(2, Rq::Or((0..w).map(|i| Rq::Eq((i % 5) as i64)).collect())), Fl::Or((0..w).map(|i| Fl::Id(Rq::Ge((i % 3) as i64))).collect())]) }
+                _ => { let w = 1000; Fl::Or((0..4).map(|_| Fl::And((0..w / 4).map(|i| Fl::Field(0, Rq::And(vec![Rq::Ge(1), Rq::Le(8), Rq::Not(Box::new(Rq::Eq((i % 9) as i64)))]))).collect())).collect()) }
+            };
+        }
         let lim = match r.below(10) {
             0 => "none".to_string(), 1 => "0".to_string(), 2 => (MAX + 1).to_string(), 3 => (n + 1).to_string(),
             _ => (1 + r.usize(n)).to_string(),
@@ -290,6 +323,7 @@ fn fmt_res(r: &Result<Vec<u64>, DBError>) -> String {
     match r {
         Ok(v) => format!("ok {}", if v.is_empty() { "-".to_string() } else { join(v, ",") }),
         Err(DBError::Index { .. }) => "err:noindex".into(),
+        Err(DBError::Generic { source, .. }) if source.to_string().contains("exceeds maximum") => "err:complexity".into(),
         Err(e) => format!("err:other({e})").replace('\n', " "),
     }
 }
@@ -354,18 +388,21 @@ async fn run_case(ops: &[String]) -> Result<(RefState, Outcome), String> {
                 };
                 // oracle
                 let full: Vec<u64> = st.docs.keys().copied().filter(|id| f.sat(&st, *id)).collect();
-                let expect = if f.uses_unknown_index() {
+                let expect = if !within_budget(&f) {
+                    Some(Err(()))
+                } else if f.uses_unknown_index() {
                     None // an unknown index may or may not surface as an error (And short-circuits): not part of the property
                 } else {
+                    Some(Ok({
                     let l = limit.unwrap_or(MAX).min(MAX);
-                    Some(match *which {
+                    match *which {
                         "first" => full.iter().copied().take(l).collect::<Vec<_>>(),
                         "last" => full[full.len().saturating_sub(l)..].to_vec(),
                         _ => full.clone(),
-                    })
+                    }}))
                 };
                 if !full.is_empty() && res.as_ref().is_ok_and(|v| !v.is_empty()) { out.nontrivial = true; }
-                out.rows.push((op.clone(), fmt_res(&res), op.clone(), expect.map(|v| fmt_res(&Ok(v)))));
+                out.rows.push((op.clone(), fmt_res(&res), op.clone(), expect.map(|v| match v { Ok(v) => fmt_res(&Ok(v)), Err(()) => "err:complexity".to_string() })));
             }
             ["s", lim, word, rest @ ..] => {
                 let mut it = rest.iter();
@@ -375,13 +412,13 @@ async fn run_case(ops: &[String]) -> Result<(RefState, Outcome), String> {
                 // candidates in relevance order: the same search without a filter, unbounded for these sizes
                 let cands = c.search_ids(Query { search: search(), filter: None, limit: Some(500) }).await.map_err(|e| format!("search: {e}"))?;
                 let res = c.search_ids(Query { search: search(), filter: Some(f.real()), limit: Some(limit) }).await;
-                let expect = if f.uses_unknown_index() { None } else {
-                    Some(cands.iter().copied().filter(|id| f.sat(&st, *id)).take(limit.min(MAX)).collect::<Vec<_>>())
+                let expect = if !within_budget(&f) { Some("err:complexity".to_string()) } else if f.uses_unknown_index() { None } else {
+                    Some(fmt_res(&Ok(cands.iter().copied().filter(|id| f.sat(&st, *id)).take(limit.min(MAX)).collect::<Vec<_>>())))
                 };
                 if res.as_ref().is_ok_and(|v| !v.is_empty()) { out.nontrivial = true; }
                 // the model gets the candidate list the real BM25 index produced (BM25 ranking is C11's business)
                 let model_req = if cands.is_empty() { String::new() } else { format!("s {limit} {} {}", join(&cands, ","), f.line()) };
-                out.rows.push((op.clone(), fmt_res(&res), model_req, expect.map(|v| fmt_res(&Ok(v)))));
+                out.rows.push((op.clone(), fmt_res(&res), model_req, expect));
             }
             _ => return Err(format!("bad op: {op}")),
         }
